@@ -96,6 +96,31 @@ def main():
             jid = f"s{si}-w{wi}"
             per_hs[h].append({"id": jid, "data": data, "world": w})
             meta[jid] = (si, w, h)
+    # directed process histories (sim/directed.py): subjects that share argument Syms / statement
+    # objects with procedures on which discarded calls were made earlier in the process
+    from sim import directed
+
+    n_directed = 0 if os.environ.get("VERIF_C18_NODIRECTED") else (30 if quick else 300)
+    base_world = {"salt": None, "sym_offset": 0, "prefix": "none", "seed": 0}
+    for di in range(n_directed):
+        ds = derive_seed(seed, "c18-directed", di) % (1 << 40)
+        dd = directed.generate(ds)
+        dd["tmpl"] = directed.TEMPLATES[di % len(directed.TEMPLATES)]  # every template in every run
+        data = {"directed": dd, "ops": [], "src": directed.source(dd)}
+        si = len(sessions)
+        sessions.append((ds, data))
+        r = substream(ds, "directed-worlds")
+        jid = f"s{si}-base"
+        per_hs[hashseeds[0]].append({"id": jid, "data": data, "world": dict(base_world)})
+        meta[jid] = (si, None, hashseeds[0])
+        for wi in range(n_worlds):
+            h = hashseeds[(si + wi) % len(hashseeds)]
+            w = dict(base_world, history=directed.gen_history(r), prefix="directed")
+            if wi % 3 == 2:
+                w.update(salt=r.getrandbits(48), sym_offset=r.choice([1, 17, 1000]))
+            jid = f"s{si}-w{wi}"
+            per_hs[h].append({"id": jid, "data": data, "world": w})
+            meta[jid] = (si, w, h)
     # harvested worlds: repository tests under salt / offset / shuffle / hash seed
     hv_files = ["tests/test_schedules.py", "tests/test_config.py", "tests/test_codegen.py"]
     if os.environ.get("VERIF_C18_NOHV"):
@@ -202,7 +227,7 @@ def main():
             kj = json.dumps(key, sort_keys=True)
             viols.setdefault(kj, ("s", si, w, h, d))
         if len(samples) < 3 and w["prefix"] != "none":
-            samples.append({"session_src": sessions[si][1]["src"][:600], "ops": [o_["op"] for o_ in sessions[si][1]["ops"]], "world": w, "hashseed": h,
+            samples.append({"session_src": sessions[si][1]["src"][:600], "ops": [o_["op"] for o_ in sessions[si][1]["ops"]] or ["<directed subject script>"], "world": w, "hashseed": h,
                             "transcript_digest": o["digest"], "equal_to_baseline": o["digest"] == base["digest"]})
 
     for kj, v in sorted(viols.items()):
@@ -251,7 +276,10 @@ def main():
         "prefix history, test order); transcripts are compared with the baseline world's; distinct = distinct (transcript, "
         "world); non-trivial = the transcript has more than two entries / the shard made scheduling calls",
         "samples": samples,
-        "sessions": len(sessions),
+        "sessions": len(sessions) - n_directed,
+        "directed_history_subjects": n_directed,
+        "directed_templates": list(directed.TEMPLATES),
+        "directed_history_actions": list(directed.ACTIONS),
         "worlds_per_session": n_worlds,
         "hashseeds": hashseeds,
         "prefix_kinds_executed": prefix_counts,
